@@ -26,6 +26,7 @@ import EPV.Gen.Cog18
 import EPV.Gen.Cog19
 import EPV.Gen.Cog20
 import EPV.Gen.Cog21
+import EPV.Lemmas.HydroRobust
 import EPV.Tactics
 
 set_option linter.all false
@@ -46,8 +47,8 @@ theorem cog1_energy (p : Cog1.P) (r t : ℝ) (h : Cog1.outcome p r t = .ok)
   have hp := cog1_pressure p r t h
   have he : Cog1.specific_internal_energy p r t
       = Cog1.pressure p r t / Cog1.density p r t / (p.gamma - 1) := by
-    clear hp hρ hγ
-    epv_on_leaves epv_leaf_ring
+    clear hp
+    epv_hydro_via_atoms (Cog1.pressure p r t) (Cog1.density p r t)
   rw [he, hp]
   field_simp
 
@@ -63,8 +64,8 @@ theorem cog2_energy (p : Cog2.P) (r t : ℝ) (h : Cog2.outcome p r t = .ok)
   have hp := cog2_pressure p r t h
   have he : Cog2.specific_internal_energy p r t
       = Cog2.pressure p r t / Cog2.density p r t / (p.gamma - 1) := by
-    clear hp hρ hγ
-    epv_on_leaves epv_leaf_ring
+    clear hp
+    epv_hydro_via_atoms (Cog2.pressure p r t) (Cog2.density p r t)
   rw [he, hp]
   field_simp
 
@@ -80,8 +81,8 @@ theorem cog3_energy (p : Cog3.P) (r t : ℝ) (h : Cog3.outcome p r t = .ok)
   have hp := cog3_pressure p r t h
   have he : Cog3.specific_internal_energy p r t
       = Cog3.pressure p r t / Cog3.density p r t / ((((p.geometry - 1) - 1) / ((p.geometry - 1) + 1)) - 1) := by
-    clear hp hρ hγ
-    epv_on_leaves epv_leaf_ring
+    clear hp
+    epv_hydro_via_atoms (Cog3.pressure p r t) (Cog3.density p r t)
   rw [he, hp]
   field_simp
 
@@ -97,8 +98,8 @@ theorem cog4_energy (p : Cog4.P) (r t : ℝ) (h : Cog4.outcome p r t = .ok)
   have hp := cog4_pressure p r t h
   have he : Cog4.specific_internal_energy p r t
       = Cog4.pressure p r t / Cog4.density p r t / (p.gamma - 1) := by
-    clear hp hρ hγ
-    epv_on_leaves epv_leaf_ring
+    clear hp
+    epv_hydro_via_atoms (Cog4.pressure p r t) (Cog4.density p r t)
   rw [he, hp]
   field_simp
 
@@ -114,8 +115,8 @@ theorem cog5_energy (p : Cog5.P) (r t : ℝ) (h : Cog5.outcome p r t = .ok)
   have hp := cog5_pressure p r t h
   have he : Cog5.specific_internal_energy p r t
       = Cog5.pressure p r t / Cog5.density p r t / (((1:ℝ) / 2) - 1) := by
-    clear hp hρ hγ
-    epv_on_leaves epv_leaf_ring
+    clear hp
+    epv_hydro_via_atoms (Cog5.pressure p r t) (Cog5.density p r t)
   rw [he, hp]
   field_simp
 
@@ -131,8 +132,8 @@ theorem cog6_energy (p : Cog6.P) (r t : ℝ) (h : Cog6.outcome p r t = .ok)
   have hp := cog6_pressure p r t h
   have he : Cog6.specific_internal_energy p r t
       = Cog6.pressure p r t / Cog6.density p r t / ((((p.geometry - 1) + 3) / ((p.geometry - 1) + 1)) - 1) := by
-    clear hp hρ hγ
-    epv_on_leaves epv_leaf_ring
+    clear hp
+    epv_hydro_via_atoms (Cog6.pressure p r t) (Cog6.density p r t)
   rw [he, hp]
   field_simp
 
@@ -148,8 +149,8 @@ theorem cog7_energy (p : Cog7.P) (r t : ℝ) (h : Cog7.outcome p r t = .ok)
   have hp := cog7_pressure p r t h
   have he : Cog7.specific_internal_energy p r t
       = Cog7.pressure p r t / Cog7.density p r t / ((((p.geometry - 1) + 3) / ((p.geometry - 1) + 1)) - 1) := by
-    clear hp hρ hγ
-    epv_on_leaves epv_leaf_ring
+    clear hp
+    epv_hydro_via_atoms (Cog7.pressure p r t) (Cog7.density p r t)
   rw [he, hp]
   field_simp
 
@@ -165,8 +166,8 @@ theorem cog8_energy (p : Cog8.P) (r t : ℝ) (h : Cog8.outcome p r t = .ok)
   have hp := cog8_pressure p r t h
   have he : Cog8.specific_internal_energy p r t
       = Cog8.pressure p r t / Cog8.density p r t / (p.gamma - 1) := by
-    clear hp hρ hγ
-    epv_on_leaves epv_leaf_ring
+    clear hp
+    epv_hydro_via_atoms (Cog8.pressure p r t) (Cog8.density p r t)
   rw [he, hp]
   field_simp
 
@@ -182,8 +183,8 @@ theorem cog9_energy (p : Cog9.P) (r t : ℝ) (h : Cog9.outcome p r t = .ok)
   have hp := cog9_pressure p r t h
   have he : Cog9.specific_internal_energy p r t
       = Cog9.pressure p r t / Cog9.density p r t / (p.gamma - 1) := by
-    clear hp hρ hγ
-    epv_on_leaves epv_leaf_ring
+    clear hp
+    epv_hydro_via_atoms (Cog9.pressure p r t) (Cog9.density p r t)
   rw [he, hp]
   field_simp
 
@@ -199,8 +200,8 @@ theorem cog10_energy (p : Cog10.P) (r t : ℝ) (h : Cog10.outcome p r t = .ok)
   have hp := cog10_pressure p r t h
   have he : Cog10.specific_internal_energy p r t
       = Cog10.pressure p r t / Cog10.density p r t / (p.gamma - 1) := by
-    clear hp hρ hγ
-    epv_on_leaves epv_leaf_ring
+    clear hp
+    epv_hydro_via_atoms (Cog10.pressure p r t) (Cog10.density p r t)
   rw [he, hp]
   field_simp
 
@@ -216,8 +217,8 @@ theorem cog11_energy (p : Cog11.P) (r t : ℝ) (h : Cog11.outcome p r t = .ok)
   have hp := cog11_pressure p r t h
   have he : Cog11.specific_internal_energy p r t
       = Cog11.pressure p r t / Cog11.density p r t / (p.gamma - 1) := by
-    clear hp hρ hγ
-    epv_on_leaves epv_leaf_ring
+    clear hp
+    epv_hydro_via_atoms (Cog11.pressure p r t) (Cog11.density p r t)
   rw [he, hp]
   field_simp
 
@@ -233,8 +234,8 @@ theorem cog12_energy (p : Cog12.P) (r t : ℝ) (h : Cog12.outcome p r t = .ok)
   have hp := cog12_pressure p r t h
   have he : Cog12.specific_internal_energy p r t
       = Cog12.pressure p r t / Cog12.density p r t / (p.gamma - 1) := by
-    clear hp hρ hγ
-    epv_on_leaves epv_leaf_ring
+    clear hp
+    epv_hydro_via_atoms (Cog12.pressure p r t) (Cog12.density p r t)
   rw [he, hp]
   field_simp
 
@@ -250,8 +251,8 @@ theorem cog13_energy (p : Cog13.P) (r t : ℝ) (h : Cog13.outcome p r t = .ok)
   have hp := cog13_pressure p r t h
   have he : Cog13.specific_internal_energy p r t
       = Cog13.pressure p r t / Cog13.density p r t / (p.gamma - 1) := by
-    clear hp hρ hγ
-    epv_on_leaves epv_leaf_ring
+    clear hp
+    epv_hydro_via_atoms (Cog13.pressure p r t) (Cog13.density p r t)
   rw [he, hp]
   field_simp
 
@@ -267,8 +268,8 @@ theorem cog14_energy (p : Cog14.P) (r t : ℝ) (h : Cog14.outcome p r t = .ok)
   have hp := cog14_pressure p r t h
   have he : Cog14.specific_internal_energy p r t
       = Cog14.pressure p r t / Cog14.density p r t / (p.gamma - 1) := by
-    clear hp hρ hγ
-    epv_on_leaves epv_leaf_ring
+    clear hp
+    epv_hydro_via_atoms (Cog14.pressure p r t) (Cog14.density p r t)
   rw [he, hp]
   field_simp
 
@@ -284,8 +285,8 @@ theorem cog16_energy (p : Cog16.P) (r t : ℝ) (h : Cog16.outcome p r t = .ok)
   have hp := cog16_pressure p r t h
   have he : Cog16.specific_internal_energy p r t
       = Cog16.pressure p r t / Cog16.density p r t / (p.gamma - 1) := by
-    clear hp hρ hγ
-    epv_on_leaves epv_leaf_ring
+    clear hp
+    epv_hydro_via_atoms (Cog16.pressure p r t) (Cog16.density p r t)
   rw [he, hp]
   field_simp
 
@@ -301,8 +302,8 @@ theorem cog17_energy (p : Cog17.P) (r t : ℝ) (h : Cog17.outcome p r t = .ok)
   have hp := cog17_pressure p r t h
   have he : Cog17.specific_internal_energy p r t
       = Cog17.pressure p r t / Cog17.density p r t / (p.gamma - 1) := by
-    clear hp hρ hγ
-    epv_on_leaves epv_leaf_ring
+    clear hp
+    epv_hydro_via_atoms (Cog17.pressure p r t) (Cog17.density p r t)
   rw [he, hp]
   field_simp
 
@@ -318,8 +319,8 @@ theorem cog18_energy (p : Cog18.P) (r t : ℝ) (h : Cog18.outcome p r t = .ok)
   have hp := cog18_pressure p r t h
   have he : Cog18.specific_internal_energy p r t
       = Cog18.pressure p r t / Cog18.density p r t / ((((p.geometry - 1) + 3) / ((p.geometry - 1) + 1)) - 1) := by
-    clear hp hρ hγ
-    epv_on_leaves epv_leaf_ring
+    clear hp
+    epv_hydro_via_atoms (Cog18.pressure p r t) (Cog18.density p r t)
   rw [he, hp]
   field_simp
 
@@ -335,8 +336,8 @@ theorem cog19_energy (p : Cog19.P) (r t : ℝ) (h : Cog19.outcome p r t = .ok)
   have hp := cog19_pressure p r t h
   have he : Cog19.specific_internal_energy p r t
       = Cog19.pressure p r t / Cog19.density p r t / (p.gamma - 1) := by
-    clear hp hρ hγ
-    epv_on_leaves epv_leaf_ring
+    clear hp
+    epv_hydro_via_atoms (Cog19.pressure p r t) (Cog19.density p r t)
   rw [he, hp]
   field_simp
 
@@ -352,8 +353,8 @@ theorem cog20_energy (p : Cog20.P) (r t : ℝ) (h : Cog20.outcome p r t = .ok)
   have hp := cog20_pressure p r t h
   have he : Cog20.specific_internal_energy p r t
       = Cog20.pressure p r t / Cog20.density p r t / (p.gamma - 1) := by
-    clear hp hρ hγ
-    epv_on_leaves epv_leaf_ring
+    clear hp
+    epv_hydro_via_atoms (Cog20.pressure p r t) (Cog20.density p r t)
   rw [he, hp]
   field_simp
 
@@ -369,8 +370,8 @@ theorem cog21_energy (p : Cog21.P) (r t : ℝ) (h : Cog21.outcome p r t = .ok)
   have hp := cog21_pressure p r t h
   have he : Cog21.specific_internal_energy p r t
       = Cog21.pressure p r t / Cog21.density p r t / ((5:ℝ) - 1) := by
-    clear hp hρ hγ
-    epv_on_leaves epv_leaf_ring
+    clear hp
+    epv_hydro_via_atoms (Cog21.pressure p r t) (Cog21.density p r t)
   rw [he, hp]
   field_simp
 
